@@ -62,6 +62,50 @@ fn first_closure_block(e: &Expr) -> Option<&Block> {
     }
 }
 
+/// `Rc::new(RefCell::new(E))` => E
+fn rc_refcell_new_arg(e: &Expr) -> Option<&Expr> {
+    fn call_of<'x>(e: &'x Expr, ty: &str) -> Option<&'x Expr> {
+        if let Expr::Call(c) = e {
+            if let Expr::Path(p) = &*c.func {
+                let segs: Vec<String> = p.path.segments.iter().map(|s| s.ident.to_string()).collect();
+                if segs.len() >= 2 && segs[segs.len() - 2] == ty && segs[segs.len() - 1] == "new" && c.args.len() == 1 {
+                    return Some(&c.args[0]);
+                }
+            }
+        }
+        None
+    }
+    call_of(call_of(e, "Rc")?, "RefCell")
+}
+
+/// `self` => `__self` everywhere except inside marker comments `/*@ .. @*/`
+fn rename_self_outside_markers(t: &str) -> String {
+    let b = t.as_bytes();
+    let mut out = String::with_capacity(t.len() + 64);
+    let mut i = 0;
+    while i < b.len() {
+        if t[i..].starts_with("/*@") {
+            let e = t[i..].find("@*/").map(|p| i + p + 3).unwrap_or(b.len());
+            out.push_str(&t[i..e]);
+            i = e;
+            continue;
+        }
+        if t[i..].starts_with("self") {
+            let before_ok = i == 0 || !(b[i - 1].is_ascii_alphanumeric() || b[i - 1] == b'_');
+            let after_ok = i + 4 >= b.len() || !(b[i + 4].is_ascii_alphanumeric() || b[i + 4] == b'_');
+            if before_ok && after_ok {
+                out.push_str("__self");
+                i += 4;
+                continue;
+            }
+        }
+        let ch = t[i..].chars().next().unwrap();
+        out.push(ch);
+        i += ch.len_utf8();
+    }
+    out
+}
+
 fn norm(s: &str) -> String {
     let mut out = String::new();
     let mut last_space = false;
@@ -124,6 +168,13 @@ struct FnCfg {
     /// handles becomes the reborrow `(&mut *X)` / `(&*X)`: the item is read with X bound to the cell's content, held
     /// exclusively while the item runs
     shared_cells: Vec<String>,
+    /// R25: parameters / struct fields that are handles to a shared cell get the type of the cell's content (`name:Type`)
+    param_types: Vec<(String, String)>,
+    field_types: Vec<(String, String)>,
+    /// R10: in a struct literal, `F: None` for an opaque field F becomes `F: vx_opaque_none()`
+    opaque_inits: Vec<String>,
+    /// R18: calls of opaque closure fields also get `(&mut *self.<this field>)`: the shared cell the closure captured
+    opaque_call_shared: Option<String>,
     /// R18: `(self.F)(args)` for an opaque closure-typed field F becomes `vx_call_F(&self.F, args)`, a function whose
     /// contract is stated (assumed) in the unit
     opaque_calls: Vec<String>,
@@ -1320,11 +1371,40 @@ impl<'r, 'a, 'ast> Visit<'ast> for V<'r, 'a> {
                 text: format!(" /*@TY:{}@*/", pi.ident),
             });
         }
+        // R25: `let X = Rc::new(RefCell::new(E));` for a declared shared cell X is read as `let mut X = E;`
+        if let (Pat::Ident(pi), Some(init)) = (&l.pat, &l.init) {
+            if self.r.fc.shared_cells.iter().any(|n| pi.ident == n) {
+                if let Some(inner) = rc_refcell_new_arg(&init.expr) {
+                    self.r.rule("R25:shared-cell-as-content");
+                    if pi.mutability.is_none() {
+                        let (ps, _) = rng(pi.span());
+                        self.edits.push(Edit { start: ps, end: ps, text: "mut ".to_string() });
+                    }
+                    let t = self.r.render_expr(inner);
+                    self.replace(init.expr.span(), t);
+                    return;
+                }
+            }
+        }
         visit::visit_local(self, l);
     }
 
     fn visit_expr(&mut self, e: &'ast Expr) {
         match e {
+            Expr::Struct(st) if !self.r.fc.opaque_inits.is_empty() => {
+                // R10: an opaque field initialised with `None`
+                for fv in st.fields.iter() {
+                    let is_none = matches!(&fv.expr, Expr::Path(p) if p.path.is_ident("None"));
+                    if let Member::Named(id) = &fv.member {
+                        if is_none && fv.colon_token.is_some() && self.r.fc.opaque_inits.iter().any(|n| id == n) {
+                            self.r.rule("R10:opaque-field");
+                            self.replace(fv.expr.span(), "vx_opaque_none()".to_string());
+                            continue;
+                        }
+                    }
+                    self.visit_expr(&fv.expr);
+                }
+            }
             Expr::MethodCall(mc) => {
                 if let Some(t) = self.r.try_rewrite_methodcall(mc) {
                     self.replace(e.span(), t);
@@ -1395,12 +1475,25 @@ impl<'r, 'a, 'ast> Visit<'ast> for V<'r, 'a> {
                         }
                     }
                 }
-                // R18: call of a closure stored in an opaque field
-                if let Expr::Field(f) = strip_paren(&c.func) {
+                // R18: call of a closure stored in an opaque field (`(self.F)(..)` or `(self.F.as_ref().unwrap())(..)`)
+                let mut callee: &Expr = strip_paren(&c.func);
+                if let Expr::MethodCall(m1) = callee {
+                    if m1.method == "unwrap" && m1.args.is_empty() {
+                        if let Expr::MethodCall(m2) = strip_paren(&m1.receiver) {
+                            if m2.method == "as_ref" && m2.args.is_empty() {
+                                callee = strip_paren(&m2.receiver);
+                            }
+                        }
+                    }
+                }
+                if let Expr::Field(f) = callee {
                     if let (Member::Named(id), Expr::Path(bp)) = (&f.member, strip_paren(&f.base)) {
                         if bp.path.is_ident("self") && self.r.fc.opaque_calls.iter().any(|n| id == n) {
                             self.r.rule("R18:opaque-closure-field-call");
                             let mut args = vec![format!("&self.{}", id)];
+                            if let Some(sh) = &self.r.fc.opaque_call_shared {
+                                args.push(format!("(&mut *self.{})", sh));
+                            }
                             for a in c.args.iter() {
                                 args.push(self.r.render_expr(a));
                             }
@@ -2219,6 +2312,10 @@ fn main() {
             custom_iters: it["custom_iters"].as_array().map(|a| a.iter().map(|v| v.as_str().unwrap().to_string()).collect()).unwrap_or_default(),
             box_receivers: it["box_receivers"].as_array().map(|a| a.iter().map(|v| v.as_str().unwrap().to_string()).collect()).unwrap_or_default(),
             shared_cells: it["shared_cells"].as_array().map(|a| a.iter().map(|v| v.as_str().unwrap().to_string()).collect()).unwrap_or_default(),
+            param_types: it["param_types"].as_array().map(|a| a.iter().filter_map(|v| v.as_str().unwrap().split_once(':').map(|(n, t)| (n.trim().to_string(), t.trim().to_string()))).collect()).unwrap_or_default(),
+            field_types: it["field_types"].as_array().map(|a| a.iter().filter_map(|v| v.as_str().unwrap().split_once(':').map(|(n, t)| (n.trim().to_string(), t.trim().to_string()))).collect()).unwrap_or_default(),
+            opaque_inits: it["opaque_inits"].as_array().map(|a| a.iter().map(|v| v.as_str().unwrap().to_string()).collect()).unwrap_or_default(),
+            opaque_call_shared: it["opaque_call_shared"].as_str().map(|s| s.to_string()),
             opaque_calls: it["opaque_calls"].as_array().map(|a| a.iter().map(|v| v.as_str().unwrap().to_string()).collect()).unwrap_or_default(),
         };
         let opaque_fields: Vec<String> = it["opaque_fields"]
@@ -2276,6 +2373,18 @@ fn main() {
                             end: te,
                             text: format!("({}: {})", fc.ret_name, &text[ts..te]),
                         });
+                    }
+                }
+                // R25: a parameter that is a handle to a shared cell is read as the cell's content
+                for inp in sig.inputs.iter() {
+                    if let FnArg::Typed(pt) = inp {
+                        if let Pat::Ident(pi) = &*pt.pat {
+                            if let Some((_, ty)) = fc.param_types.iter().find(|(n, _)| pi.ident == n) {
+                                let (ts, te) = rng(pt.ty.span());
+                                sig_edits.push(Edit { start: ts, end: te, text: ty.clone() });
+                                r.rule("R25:shared-cell-as-content");
+                            }
+                        }
                     }
                 }
                 // R7: `&dyn Fn(A) -> B` parameters become generic
@@ -2415,6 +2524,20 @@ fn main() {
                         }
                     }
                 };
+                // R26: `mut self` (unsupported by the verifier) is `self` moved into a mutable local of the body
+                let mut sig_text = sig_text;
+                let mut body_text = body_text;
+                let has_mut_self = sig.inputs.iter().any(|i| matches!(i, FnArg::Receiver(rc) if rc.mutability.is_some() && rc.reference.is_none()));
+                if has_mut_self && block.is_some() {
+                    r.rule("R26:mut-self-as-local");
+                    if let Some(pos) = sig_text.find("mut self") {
+                        sig_text.replace_range(pos..pos + "mut self".len(), "self");
+                    }
+                    body_text = rename_self_outside_markers(&body_text);
+                    if let Some(pos) = body_text.find("/*@BEGIN@*/") {
+                        body_text.insert_str(pos, "let mut __self = self; ");
+                    }
+                }
                 let (full, name) = if let Some(fname) = &fc.frag_name {
                     // R11: the kept statements as a function of their declared free variables
                     let params = fc.frag_params.clone().unwrap_or_default();
@@ -2458,6 +2581,9 @@ fn main() {
                             let ty = if opaque_fields.contains(&fname) {
                                 r.rule("R10:opaque-field");
                                 "Opaque".to_string()
+                            } else if let Some((_, t)) = fc.field_types.iter().find(|(n, _)| *n == fname) {
+                                r.rule("R25:shared-cell-as-content");
+                                t.clone()
                             } else {
                                 text[rng(f.ty.span()).0..rng(f.ty.span()).1].to_string()
                             };
